@@ -9,7 +9,7 @@ PROP = "C11"
 LEVEL = "exploration"
 RULE = ("consumer tables of 1..4 entries x histories of heartbeats (monitored / unmonitored nodes, arbitrary gaps, all state codes), SDO writes "
         "of every (node, time) class to every entry (same node, node monitored elsewhere, free entry, active entry, time 0; the write-class x "
-        "entry-state matrix is enumerated), counter reads, last-state queries, ticks past several timeouts; callbacks with ticks, counters, "
+        "entry-state matrix is enumerated), counter reads, last-state queries, ticks past several timeouts, heartbeats and rewrites arriving while the timeout of that entry is served but not yet processed; callbacks with ticks, counters, "
         "SDO verdicts and 1016h read-back compared with a reference monitor in lockstep; non-trivial = history with >= 1 heartbeat event and "
         ">= 1 write; distinct by script")
 ASSUMPTIONS = ["node ids 1..127 are written; node in PRE-OPERATIONAL or OPERATIONAL", "consumer times are a whole number of ticks"]
@@ -142,6 +142,8 @@ def run_history(res, exe, rng, first, matrix_case=None):
                     op = ("tick", rng.choice([1, 2, 4, 5, 9, 10, 11, 19, 20, 21, 49, 50, 51, 120, 450]))
                 elif x < 0.80:
                     op = ("write", rng.randrange(ne), rng.choice(["same", "other-active", "new", "zero-same", "zero-other", "zero-new"]))
+                elif x < 0.84:
+                    op = ("pending", rng.choice(["hb", "hb", "zero", "retarget", "none", "zero-other"]))
                 elif x < 0.88:
                     op = ("events", rng.choice(pool_nodes))
                 elif x < 0.94:
@@ -219,6 +221,92 @@ def run_history(res, exe, rng, first, matrix_case=None):
                     fail("write-verdict/%s/%s" % (cls, state), "write answered %s, reference %s" % (
                         "%08x" % code if isinstance(code, int) else code, "%08x" % want if want else "confirmed"), want, code); return
                 res.states.add((cls, state))
+            elif op[0] == "pending":
+                # the timeout of the entry with the nearest deadline has been served by the tick interrupt but is not yet processed
+                # when a heartbeat of that node arrives / the entry is rewritten; then the timer processing runs. The deadline and
+                # the operation share one tick, so the event of that entry may or may not be signalled (once, with this tick);
+                # everything else - other entries, the new deadline, no later event of a cleared entry - is exact.
+                armed = [x for x in m.e if x.active and x.deadline is not None]
+                if not armed:
+                    continue
+                T = min(x.deadline for x in armed)
+                if T - now > 400 or T <= now:
+                    continue
+                tgt = next(x for x in armed if x.deadline == T)
+                k = m.e.index(tgt)
+                what = op[1]
+                others = [x for x in m.e if x.active and x is not tgt]
+                if what == "zero-other" and not others:
+                    what = "none"
+                script.append("pending timeout of node %d @%d then %s" % (tgt.node, T, what))
+                evs = sim.cmd("svc %d" % (T - now))
+                if S.cbs(evs, "hbevent"):
+                    fail("event-in-service", "heartbeat event signalled by the tick service itself"); return
+                if m.advance(now, T - 1):
+                    fail("harness", "model: earlier deadline"); return
+                due = [x for x in m.e if x.active and x.deadline == T]
+                tnode = tgt.node
+                want_ch = []
+                optional = set()
+                if what in ("hb", "zero", "retarget"):
+                    optional.add((tnode, T))
+                    due.remove(tgt)
+                if what == "hb":
+                    st = rng.choice([5, 127, 4])
+                    r = m.heartbeat(tnode, st, T)
+                    want_ch = [r[1]] if r[1] else []
+                    evs = sim.rx(0x700 + tnode, bytes([st]))
+                elif what == "zero":
+                    m.write(k, tnode, 0)
+                    code, evs = S.sdo_write(sim, nid, 0x1016, k + 1, (tnode << 16), 4)
+                    if code is not None:
+                        fail("write-verdict/pending", "deactivation with pending timeout answered %r" % code); return
+                elif what == "retarget":
+                    nn = rng.choice([n for n in [4, 11, 12, 13, 100] if m.find(n) is None])
+                    m.write(k, nn, 20)
+                    code, evs = S.sdo_write(sim, nid, 0x1016, k + 1, (nn << 16) | 20, 4)
+                    if code is not None:
+                        fail("write-verdict/pending", "re-targeting with pending timeout answered %r" % code); return
+                elif what == "zero-other":
+                    o = rng.choice(others)
+                    ko, on = m.e.index(o), o.node
+                    if o in due:
+                        due.remove(o)          # its own event becomes optional as well
+                        optional.add((on, T))
+                    m.write(ko, on, 0)
+                    code, evs = S.sdo_write(sim, nid, 0x1016, ko + 1, (on << 16), 4)
+                    if code is not None:
+                        fail("write-verdict/pending", "deactivation of another entry answered %r" % code); return
+                else:
+                    evs = []
+                evs = evs + sim.cmd("tproc")
+                err = common(evs)
+                if err:
+                    fail("inv", err); return
+                got = sorted((int(c[1]), int(c[2])) for c in S.cbs(evs, "hbevent"))
+                ch = [(int(c[1]), int(c[2])) for c in S.cbs(evs, "hbchange")]
+                required = sorted((x.node, T) for x in due)
+                miss = [r_ for r_ in required if r_ not in got]
+                bad = [g for g in got if g not in required and g not in optional]
+                if miss or bad or len(got) != len(set(got)):
+                    fail("events/pending-" + what, "timeout of node %d pending at tick %d, then %s: events %r, required %r, optional %r" % (
+                        tnode, T, what, got, required, sorted(optional)), required, got); return
+                if ch != want_ch:
+                    fail("change", "state-change notifications %r, reference %r" % (ch, want_ch)); return
+                # bookkeeping of the model for the events that were signalled
+                for x in due:
+                    x.count = min(255, x.count + 1)
+                    x.deadline = T + m.ticks(x.time)
+                if what == "hb" and (tnode, T) in got:
+                    tgt.count = min(255, tgt.count + 1)
+                nev += len(got)
+                res.counters["pending_timeout_steps"] += 1
+                res.counters["pending_" + what] += 1
+                # the counters of rewritten entries are re-synchronised by one read (their order against the event is open)
+                if what in ("zero", "retarget", "zero-other"):
+                    for n_ in {g[0] for g in optional}:
+                        m.events(n_); sim.ret("hbevents %d" % n_)
+                res.counters["pending_optional_event_signalled"] += len([g for g in got if g in optional])
             elif op[0] == "events":
                 script.append("events %d" % op[1])
                 want = m.events(op[1])
